@@ -162,6 +162,12 @@ def addDataEntry (sha256hex : Bytes → Bytes) (content : Bytes) (modifiedAt : N
   | .err e => .err e
   | .panic s => .panic s
 
+/-- `prepare_data` derives two words from a stored `FileMode`: `file_modes.push(entry.mode.into())` — `u16::from` — is the
+RPMTAG_FILEMODES entry, `payload::Builder::new(..).mode(entry.mode.into())` — `u32::from` — the `c_mode` of the file's cpio
+header. (`FileE.mode` keeps the former; `Lemmas/RpmValid.toFileIn` uses the same word for the archive.) -/
+def headerModeWord (m : FileMode) : Nat := toU16 m
+def cpioModeWord (m : FileMode) : Nat := toU32 m
+
 /-- `options.mode = (file_mode(&input)? as i32).into()` when `inherit_permissions` -/
 def inheritMode (stMode : Nat) (o : FileOpts) : FileOpts :=
   if o.inheritPermissions then { o with mode := fromI32 (u32AsI32 stMode) } else o
